@@ -91,3 +91,182 @@ def mc_run(res, name, module, cfg, wd, workers=8, timeout=900, extra=None, expec
             raise core.ToolError("vacuous model run %s: actions never taken: %s" % (name, missing))
     res.add_model(name, gen, dist, {"actions": cov, "violated": violated})
     return (not violated), out
+
+
+# ---------------------------------------------------------------------------------------------
+# spec -> impl: TLC-generated schedules replayed on the real sessions
+# ---------------------------------------------------------------------------------------------
+
+GEN_DEFAULTS = {
+    "QL": "128", "Peers": "GenPeers2", "NumPlayers": "2", "Window": "2", "Sparse": "FALSE",
+    "PredDefault": "FALSE", "DesyncInterval": "0", "Fps": "60", "Timeout": "2000", "Notify": "500",
+    "Values": "GenValues", "MaxFrame": "8", "LinkCap": "2", "DupBudget": "1", "ClockSteps": "NoClock",
+    "MaxClock": "1000000", "PreSynced": "TRUE", "InboxCap": "2", "VaryAll": "TRUE", "Granular": "TRUE",
+    "MaxSteps": "80",
+}
+GEN_SUBST = {"Peers", "Values", "ClockSteps"}
+
+GEN_PEERS = {
+    "GenPeers2": (2, [{"kind": "p2p", "locals": [0], "delay": 0, "host": 0},
+                      {"kind": "p2p", "locals": [1], "delay": 0, "host": 0}]),
+    "GenPeers2d": (2, [{"kind": "p2p", "locals": [0], "delay": 1, "host": 0},
+                       {"kind": "p2p", "locals": [1], "delay": 0, "host": 0}]),
+    "GenPeers21": (3, [{"kind": "p2p", "locals": [0, 1], "delay": 0, "host": 0},
+                       {"kind": "p2p", "locals": [2], "delay": 1, "host": 0}]),
+    "GenPeers3": (3, [{"kind": "p2p", "locals": [0], "delay": 0, "host": 0},
+                      {"kind": "p2p", "locals": [1], "delay": 0, "host": 0},
+                      {"kind": "p2p", "locals": [2], "delay": 0, "host": 0}]),
+}
+
+
+def write_cfg(path, spec, consts, invariants=(), props=(), view=None, postcondition=None, constraint=None):
+    lines = ["SPECIFICATION %s" % spec, "CONSTANTS"]
+    for k, v in consts.items():
+        if k in GEN_SUBST or (isinstance(v, str) and v[:1].isalpha() and v not in ("TRUE", "FALSE")):
+            lines.append("  %s <- %s" % (k, v))
+        else:
+            lines.append("  %s = %s" % (k, v))
+    if invariants:
+        lines.append("INVARIANTS " + " ".join(invariants))
+    if props:
+        lines.append("PROPERTIES " + " ".join(props))
+    if view:
+        lines.append("VIEW " + view)
+    if constraint:
+        lines.append("CONSTRAINT " + constraint)
+    if postcondition:
+        lines.append("POSTCONDITION " + postcondition)
+    lines.append("CHECK_DEADLOCK FALSE")
+    with open(path, "w") as f:
+        f.write("\n".join(lines) + "\n")
+
+
+def gen_schedules(wd, tag, over, num, depth, seed, module="MC_Gen", timeout=600):
+    """tlc -simulate on MC_Gen with the given constant overrides; returns (schedules, consts)."""
+    import re
+    consts = dict(GEN_DEFAULTS)
+    consts.update({k: str(v) for k, v in over.items()})
+    cfgp = os.path.join(wd, "gen_%s.cfg" % tag)
+    write_cfg(cfgp, "GenSpec", consts, invariants=["EmitSchedule"])
+    rc, out = core.tlc(os.path.join(core.SPEC, module + ".tla"), cfgp, os.path.join(wd, "md_gen_" + tag),
+                       extra=["-simulate", "num=%d" % num, "-depth", str(depth), "-seed", str(seed)],
+                       timeout=timeout, xmx="4g")
+    scheds = []
+    for m in re.finditer(r'<<"SCHED", "(.*)">>', out):
+        payload = m.group(1).encode().decode("unicode_escape")
+        scheds.append(json.loads(payload))
+    if not scheds:
+        raise core.ToolError("no schedules generated by %s (%s): %s" % (module, tag, out[-2000:]))
+    return scheds, consts
+
+
+def scenario_of(consts):
+    players, peers = GEN_PEERS[consts["Peers"]]
+    return {
+        "players": players, "window": int(consts["Window"]), "sparse": consts["Sparse"] == "TRUE",
+        "predictor": "default" if consts["PredDefault"] == "TRUE" else "repeat",
+        "desync": int(consts["DesyncInterval"]), "fps": int(consts["Fps"]),
+        "timeout": int(consts["Timeout"]), "notify": int(consts["Notify"]),
+        "max_behind": 10, "catchup": 1, "max_delay": 8, "peers": peers,
+    }
+
+
+def validate_sys(trace, metadir, timeout=900):
+    """Conformance: replay a detail-2 trace of the real code through System.tla (Trace_Sys)."""
+    import re
+    rc, out = core.tlc(os.path.join(core.SPEC, "Trace_Sys.tla"), os.path.join(core.SPEC, "Trace_Sys.cfg"),
+                       metadir, env={"TRACE": trace}, timeout=timeout, xmx="4g")
+    m = re.search(r'<<"SYS-RESULT", "(.*)">>', out)
+    if not m or "SYS-INCOMPLETE" in out:
+        raise core.ToolError("Trace_Sys produced no result for %s (rc=%d):\n%s" % (trace, rc, out[-3000:]))
+    res = json.loads(m.group(1).encode().decode("unicode_escape"))
+    gen, dist = core.parse_tlc_stats(out)
+    res["states"] = dist
+    return res
+
+
+def s2i_runs(res, pid, wd, tag, over, num, depth, props, presync=True, conform=True, par=8,
+             module="MC_Gen", cls=None):
+    """Generate schedules with TLC, replay them on the real sessions, judge the real traces with
+    the monitor (verdict) and with Trace_Sys (binding; drift is recorded, never a violation)."""
+    core.build()
+    scheds, consts = gen_schedules(wd, tag, over, num, depth, res.seed, module=module)
+    scen = scenario_of(consts)
+    cap = int(consts["LinkCap"])
+    jobs = []
+    for i, sc in enumerate(scheds):
+        steps = ([{"a": "sync"}] if presync else []) + sc["steps"]
+        jobs.append((i, {"cfg": scen, "steps": steps, "linkcap": cap},
+                     os.path.join(wd, "%s_%03d.ndjson" % (tag, i)), sc.get("viol", [])))
+
+    def one(job):
+        i, sched, path, mviol = job
+        core.drive([sched], path, detail=2)
+        r = core.validate_trace(path, os.path.join(wd, "mdo_%s_%03d" % (tag, i)))
+        d = validate_sys(path, os.path.join(wd, "mds_%s_%03d" % (tag, i))) if conform else None
+        return (i, sched, path, r, d, mviol)
+
+    outs = core.parallel(one, jobs, n=par)
+    drift = 0
+    for i, sched, path, r, d, mviol in outs:
+        res.traces += 1
+        res.evaluations += 1
+        res.states += r["states"]
+        res.transitions += r["transitions"]
+        if r["stats"]["loads"] >= 1 or r["stats"]["stalls"] >= 1:
+            res.nontrivial += 1
+        if i == 0:
+            res.add_sample({"family": tag, "schedule_head": sched["steps"][:12], "stats": r["stats"]})
+        if d is not None and d["drift"]:
+            drift += 1
+            res.extra.setdefault("conformance_drift", []).append({"trace": path, "first": d["drift"]})
+        seen = set()
+        for v in r["viol"]:
+            run, prop, n, code, det = v[0], v[1], v[2], v[3], v[4]
+            if prop == "TOOL":
+                raise core.ToolError("monitor/harness inconsistency in %s line %s: %s %s" % (path, n, code, det))
+            if not (prop in props or prop == "PANIC"):
+                continue
+            if (prop, code) in seen:
+                continue
+            seen.add((prop, code))
+            replay = core.save_replay(pid, path, run, "%s_%03d_s%d" % (tag, i, res.seed))
+            res.violations.append({"prop": prop, "code": code, "line": n, "detail": det, "family": tag,
+                                   "cls": cls or tag, "replay": replay})
+        if not r["viol"] and not (d and d["drift"]):
+            for pth in (path, path + ".plans.json"):
+                try:
+                    os.remove(pth)
+                except OSError:
+                    pass
+    res.extra["s2i_" + tag] = {"schedules": len(scheds), "conformance_checked": conform, "drift": drift}
+    if drift:
+        core.log("[%s] CONFORMANCE-DRIFT in %d/%d replayed schedules (%s); the model-checking results "
+                 "are not claimed for this tree" % (pid, drift, len(scheds), tag))
+    return outs
+
+
+SYS_DEFAULTS = dict(GEN_DEFAULTS)
+SYS_DEFAULTS.update({"QL": "8", "MaxFrame": "3", "LinkCap": "1", "DupBudget": "0", "InboxCap": "1",
+                     "VaryAll": "FALSE", "Granular": "FALSE"})
+del SYS_DEFAULTS["MaxSteps"]
+
+
+def mc_system(res, wd, name, over, workers=12, timeout=900, invariants=("NoViolation", "NoPanic")):
+    """Exhaustive TLC run of System.tla with the given constants.  Returns (held, out)."""
+    consts = dict(SYS_DEFAULTS)
+    consts.update({k: str(v) for k, v in over.items()})
+    cfgp = os.path.join(wd, "mc_%s.cfg" % name)
+    write_cfg(cfgp, "Spec", consts, invariants=invariants, view="View")
+    rc, out = core.tlc(os.path.join(core.SPEC, "MC_Sys.tla"), cfgp, os.path.join(wd, "md_mc_" + name),
+                       workers=workers, timeout=timeout, xmx="10g")
+    gen, dist = core.parse_tlc_stats(out)
+    violated = ("is violated" in out)
+    if rc != 0 and not violated:
+        raise core.ToolError("TLC failed on MC_Sys/%s rc=%d:\n%s" % (name, rc, out[-3000:]))
+    if not violated and "Model checking completed" not in out:
+        raise core.ToolError("TLC did not complete MC_Sys/%s:\n%s" % (name, out[-2000:]))
+    res.add_model("System/" + name, gen, dist, {"constants": {k: consts[k] for k in
+                  ("Peers", "Window", "Sparse", "PredDefault", "MaxFrame", "LinkCap", "InboxCap", "DesyncInterval")},
+                  "violated": violated, "exhaustive": True})
+    return (not violated), out
